@@ -146,7 +146,9 @@ func Run(r *core.Run) {
 		"line\u2028separator\u2029 & <html> \u007f",                                          // characters that JSON writers other than JCS escape
 		M{"\ufb33": 1.0, "\U0001F600": 2.0, "\ufb33a": M{"\U0001F600a": "x", "\uffff": "y"}}, // member names whose UTF-16 order differs from their code point order
 		// values that are "empty" in some sense but present all the same: they are part of the suffix data and of the DID
-		"", false, 0.0, []any{}, M{}}
+		"", false, 0.0, []any{}, M{},
+		// a backslash with nothing else that needs escaping, beside the control character its two-character escape would denote
+		"o\\n", "o\n", M{"k\\": "v\\", "k\\\\": "\\\\"}}
 	rec, upd := keys.New("Ed25519", 81), keys.New("P-256", 81)
 	type reqT struct {
 		label string
@@ -156,7 +158,10 @@ func Run(r *core.Run) {
 	var reqs []reqT
 	for pi, pl := range patchLists {
 		for oi, o := range origins {
-			for ti, typ := range []string{"", "x"} {
+			for ti, typ := range []string{"", "x", "a\\b"} {
+				if ti == 2 && oi != 1 && oi != len(origins)-3 {
+					continue
+				}
 				for _, code := range []uint64{18, 19} {
 					c := ops.ValidCreate(rec, upd, pl, code, o)
 					if typ != "" {
@@ -309,8 +314,8 @@ func Run(r *core.Run) {
 		}{
 			{[]string{"suffixData", "recoveryCommitment"}, []any{ops.Commitment(other, 18), ops.Commitment(other, 19)}},
 			{[]string{"suffixData", "deltaHash"}, []any{ops.HashOf(M{"x": 1.0}, 18), ops.HashOf(M{"x": 1.0}, 19)}},
-			{[]string{"suffixData", "anchorOrigin"}, []any{"other-origin", M{"a": 2.0}, []any{"x"}, nil, "", false, 0.0, []any{}, M{}, 2e19, 3e19, 18446744073709551616.0, 9007199254740993.0, M{"n": []any{4611686018427388928.0, 0.1}}, M{"n": []any{4611686018427387904.0, 0.2}}}},
-			{[]string{"suffixData", "type"}, []any{"y", "xx", nil}},
+			{[]string{"suffixData", "anchorOrigin"}, []any{"other-origin", M{"a": 2.0}, []any{"x"}, nil, "", false, 0.0, []any{}, M{}, "o\\n", "o\n", "o\\\\n", 2e19, 3e19, 18446744073709551616.0, 9007199254740993.0, M{"n": []any{4611686018427388928.0, 0.1}}, M{"n": []any{4611686018427387904.0, 0.2}}}},
+			{[]string{"suffixData", "type"}, []any{"y", "xx", "a\\b", "a\b", "a\\\\b", nil}},
 			{[]string{"delta", "updateCommitment"}, []any{ops.Commitment(other, 18), ops.Commitment(other, 19)}},
 		} {
 			for vi, v := range leaf.vals {
